@@ -247,6 +247,11 @@ def run(tier):
                             '%s: join requests on the %s kHz channels are sent with DR%s = %s, whose bandwidth is not %s kHz' % (
                                 short_r, cls, nm, (e.get('spreading_factor'), bw) if isinstance(e, dict) else e, cls),
                             bf.body.path, 'CONST-TABLE(join data rate vs channel class)', instance='%s: join DR%s on %s kHz channels has bandwidth %s' % (short_r, nm, cls, bw))
+                from . import regional
+                want_dr = regional.ORACLE.get(short_r, {}).get('join_dr', {}).get(cls)
+                res.require(want_dr is not None and i == want_dr, 'C09:regional:%s:join-dr:%s' % (short_r, cls),
+                            '%s: join requests on the %s kHz channels are sent with DR%s; the regional parameters mandate DR%s there' % (short_r, cls, i, want_dr),
+                            bf.body.path, 'ORACLE(join data rate per channel class)', instance='%s: join requests on %s kHz channels use DR%s' % (short_r, cls, want_dr))
     if len(join_dr) != 2:
         raise CheckError('anchor: join data rates per channel class not recognised: %s' % join_dr)
     # (c) in band
@@ -422,8 +427,11 @@ def run(tier):
                     instance='%s: tx power table %s' % (short_r, defined))
         cov_tables['%s.tx_power' % short_r] = vals
         cov_tables['%s.datarates' % short_r] = [(d_['spreading_factor'], d_['bandwidth']) if isinstance(d_, dict) else d_ for d_ in tabs[r]['dr']]
+    # the parameter sets against the regional parameters document (frozen oracle, lrs/props/regional.py)
+    from . import regional
+    regional.check(c, res, PID, {'dr', 'power', 'band', 'channels', 'cr'})
     res.coverage.update({'configs': [c.info], 'tables': cov_tables, 'frequency_constants_checked': n_const, 'join_data_rates_by_channel_class': {k: sorted(v) for k, v in join_dr.items()}})
     res.explanation = __doc__
-    res.assumptions = ['region predicates and tables are judged for mutual consistency, not against the regional parameters document',
+    res.assumptions = ['region predicates and tables are judged for mutual consistency and against the regional parameters document as transcribed in lrs/props/regional.py (RP002-1.0.x): data-rate tables, TX power tables (never above MaxEIRP - 2*index), band edges, default channels, fixed-plan frequency maps, coding rate 4/5',
                        'termination rules are those of C04 (validate-before-write); see C04 for the loop inventory']
     return res
